@@ -4,6 +4,7 @@
  * LDPC-Staircase: every parity-check equation of the RFC 5170 matrix (rfc5170.c) sums to zero over the emitted codeword.
  * Source immutability: arena (PROT_READ / checksum). NULL output slots: session.c:block_build. */
 #include "session.h"
+#include "of_openfec_api.h"
 #include "arena.h"
 #include "rsref.h"
 #include "rfc5170.h"
@@ -51,6 +52,33 @@ static void ldpc_case(uint32_t k, uint32_t r, uint32_t N1, uint32_t seed, uint32
 		free(acc); rfc5170_free(M);
 	}
 	block_free(&b);
+	rep_case_done(1, 0, 1);
+}
+
+/* two encoder sessions alive at the same time, their of_build_repair_symbol calls alternating; every symbol against the reference */
+static void two_encoders(int mA, uint32_t kA, uint32_t rA, int mB, uint32_t kB, uint32_t rB, uint32_t L, rng_t *rng)
+{
+	if (!rep_case("two encoders alive: rs2m%d k=%u r=%u and rs2m%d k=%u r=%u L=%u, builds alternate", mA, kA, rA, mB, kB, rB, L)) return;
+	struct { int m; uint32_t k, r; of_session_t *s; uint8_t *sym[32]; void *tab[32]; uint8_t *G; } E[2] = { { mA, kA, rA }, { mB, kB, rB } };
+	int ok = 1;
+	for (int e = 0; e < 2 && ok; e++) {
+		of_rs_2_m_parameters_t prm; memset(&prm, 0, sizeof prm); prm.nb_source_symbols = E[e].k; prm.nb_repair_symbols = E[e].r; prm.encoding_symbol_length = L; prm.m = (UINT16)E[e].m;
+		if (of_create_codec_instance(&E[e].s, OF_CODEC_REED_SOLOMON_GF_2_M_STABLE, OF_ENCODER, 0) != OF_STATUS_OK || of_set_fec_parameters(E[e].s, (of_parameters_t *)&prm) != OF_STATUS_OK) ok = 0;
+		E[e].G = malloc((size_t)(E[e].k + E[e].r) * E[e].k + 1);
+		if (ok && rsref_generator(E[e].m, E[e].k, E[e].k + E[e].r, E[e].G)) rep_fatal("rsref: singular (two encoders)");
+		for (uint32_t i = 0; i < E[e].k + E[e].r; i++) { E[e].sym[i] = calloc(1, L + 1); E[e].tab[i] = E[e].sym[i]; if (i < E[e].k) for (uint32_t b = 0; b < L; b++) E[e].sym[i][b] = (uint8_t)rng_u64(rng); }
+	}
+	uint8_t *exp = malloc(L + 1); uint32_t done[2] = { 0, 0 };
+	while (ok && (done[0] < E[0].r || done[1] < E[1].r)) for (int e = 0; e < 2; e++) {
+		if (done[e] >= E[e].r) continue;
+		uint32_t esi = E[e].k + done[e]++;
+		if (of_build_repair_symbol(E[e].s, E[e].tab, esi) != OF_STATUS_OK) { rep_viol("encoder-build-failed", "two encoders alive, session %d esi=%u", e, esi); ok = 0; break; }
+		rsref_encode_row(E[e].m, E[e].G + (size_t)esi * E[e].k, E[e].k, E[e].sym, L, exp);
+		if (memcmp(exp, E[e].sym[esi], L)) { char key[96]; snprintf(key, sizeof key, "rs-generator-differs:rs2m%d", E[e].m); rep_viol(key, "repair esi=%u of session %d (k=%u n=%u L=%u) differs from the reference code while a GF(2^%d) encoder is alive and building too", esi, e, E[e].k, E[e].k + E[e].r, L, E[1 - e].m); ok = 0; break; }
+		rep_count("repair_symbols_compared_with_reference", 1);
+	}
+	for (int e = 0; e < 2; e++) { if (E[e].s) of_release_codec_instance(E[e].s); for (uint32_t i = 0; i < 32; i++) free(E[e].sym[i]); free(E[e].G); }
+	free(exp);
 	rep_case_done(1, 0, 1);
 }
 
@@ -115,6 +143,16 @@ int p_c06(void)
 			rs_case(2, 4, k, r, L, PAY_RANDOM, 0, &rng, G4, NULL);
 			if ((k + r) % 4 == 0) { rs_case(1, 0, k, r, L, PAY_RANDOM, 0, &rng, G8, NULL); rs_case(2, 8, k, r, L, PAY_RANDOM, 0, &rng, G8, NULL); }
 			free(G4); free(G8);
+		}
+	}
+	unit++;
+	rep_unit(unit);
+	if (rep_unit_mine(unit)) {
+		rng_t rng = rng_make(g_run.seed, 655, 0);
+		for (int i = 0; i < (T ? 200 : 40); i++) {
+			int mA = rng_below(&rng, 2) ? 4 : 8, mB = rng_below(&rng, 3) ? 12 - mA : mA;
+			uint32_t kA = 1 + rng_below(&rng, 9), rA = 2 + rng_below(&rng, 15 - kA - 1), kB = 1 + rng_below(&rng, 9), rB = 2 + rng_below(&rng, 15 - kB - 1);
+			two_encoders(mA, kA, rA, mB, kB, rB, LENS[rng_below(&rng, nl)], &rng);
 		}
 	}
 	unit++;
